@@ -19,6 +19,8 @@ pub struct Feat {
     pub order: Option<Vec<String>>,
     pub blocks: Option<Vec<(String, String)>>, // in file order; tags distinct
     pub fea: Option<String>,                   // features.fea
+    pub data: Vec<(String, Vec<u8>)>,          // data/<relative path>
+    pub images: Vec<(String, Vec<u8>)>,        // images/<name>
 }
 
 #[derive(Clone, Debug)]
@@ -30,7 +32,9 @@ pub struct Case10 {
 fn j_feat(f: &Feat) -> serde_json::Value {
     serde_json::json!({"classes": f.classes, "order": f.order,
         "blocks": f.blocks.as_ref().map(|b| b.iter().map(|(k, v)| serde_json::json!([k, v])).collect::<Vec<_>>()),
-        "fea": f.fea})
+        "fea": f.fea,
+        "data": f.data.iter().map(|(k, v)| serde_json::json!([k, v])).collect::<Vec<_>>(),
+        "images": f.images.iter().map(|(k, v)| serde_json::json!([k, v])).collect::<Vec<_>>()})
 }
 fn feat_from(v: &serde_json::Value) -> Feat {
     Feat {
@@ -40,7 +44,23 @@ fn feat_from(v: &serde_json::Value) -> Feat {
             a.iter().map(|p| (p[0].as_str().unwrap().to_string(), p[1].as_str().unwrap().to_string())).collect()
         }),
         fea: v["fea"].as_str().map(|s| s.to_string()),
+        data: store_from(&v["data"]),
+        images: store_from(&v["images"]),
     }
+}
+fn store_from(v: &serde_json::Value) -> Vec<(String, Vec<u8>)> {
+    v.as_array()
+        .map(|a| {
+            a.iter()
+                .map(|p| {
+                    (
+                        p[0].as_str().unwrap().to_string(),
+                        p[1].as_array().unwrap().iter().map(|b| b.as_u64().unwrap() as u8).collect(),
+                    )
+                })
+                .collect()
+        })
+        .unwrap_or_default()
 }
 impl Case10 {
     pub fn to_json(&self) -> serde_json::Value {
@@ -78,6 +98,13 @@ fn write_extra(ufo: &Path, f: &Feat, shuffle: u64) {
     }
     if let Some(t) = &f.fea {
         write_file(&ufo.join("features.fea"), t);
+    }
+    for (dir, entries) in [("data", &f.data), ("images", &f.images)] {
+        for (k, v) in entries.iter() {
+            let p = ufo.join(dir).join(k);
+            std::fs::create_dir_all(p.parent().unwrap()).unwrap();
+            std::fs::write(&p, v).unwrap();
+        }
     }
 }
 
@@ -359,6 +386,32 @@ pub fn gen_case(seed: u64, idx: u64) -> Case10 {
         order,
         blocks: if r.chance(1, 12) { None } else { Some(blocks) },
         fea: if r.chance(1, 3) { Some("# features.fea\n".to_string()) } else { None },
+        data: {
+            // pairwise distinct, prefix-free keys, some nested (the store writes them in HashMap order)
+            const DK: [&str; 6] = ["a.txt", "b/c.bin", "b/d/e.txt", "f/g.txt", "h.bin", "b/d/i.txt"];
+            let mut v = vec![];
+            if r.chance(1, 2) {
+                for (i, k) in DK.iter().enumerate() {
+                    if r.chance(1, 2) {
+                        v.push((k.to_string(), vec![i as u8 + 65; 1 + r.below(4) as usize]));
+                    }
+                }
+            }
+            v
+        },
+        images: {
+            let mut v = vec![];
+            if r.chance(1, 3) {
+                for k in ["i1.png", "i2.png", "i3.png"] {
+                    if r.chance(1, 2) {
+                        let mut b = vec![0x89, b'P', b'N', b'G', 0x0d, 0x0a, 0x1a, 0x0a];
+                        b.push(r.below(256) as u8);
+                        v.push((k.to_string(), b));
+                    }
+                }
+            }
+            v
+        },
     };
     Case10 { base, feat }
 }
@@ -419,7 +472,55 @@ fn render_feat(f: &Feat, it: &mut Interner) -> String {
     s
 }
 
+/// what the save left below data/ and images/: (directories, files with bytes), relative paths
+#[derive(Clone, Debug, Default)]
+struct StoreObs {
+    dirs: Vec<String>,
+    files: Vec<(String, Vec<u8>)>,
+}
+fn observe_store(root: &Path) -> StoreObs {
+    fn walk(dir: &Path, rel: &str, o: &mut StoreObs) {
+        let mut es: Vec<_> = match std::fs::read_dir(dir) {
+            Ok(rd) => rd.filter_map(|e| e.ok()).collect(),
+            Err(_) => return,
+        };
+        es.sort_by_key(|e| e.file_name());
+        for e in es {
+            let name = e.file_name().to_string_lossy().to_string();
+            let r = if rel.is_empty() { name.clone() } else { format!("{}/{}", rel, name) };
+            if e.path().is_dir() {
+                o.dirs.push(r.clone());
+                walk(&e.path(), &r, o);
+            } else {
+                o.files.push((r, std::fs::read(e.path()).unwrap_or_default()));
+            }
+        }
+    }
+    let mut o = StoreObs::default();
+    walk(root, "", &mut o);
+    o
+}
+fn g_path(p: &str, it: &mut Interner) -> String {
+    format!("[{}]", p.split('/').map(|c| it.name(c).to_string()).collect::<Vec<_>>().join(";"))
+}
+fn g_bytes10(b: &[u8]) -> String {
+    format!("[{}]", b.iter().map(|x| x.to_string()).collect::<Vec<_>>().join(";"))
+}
+/// (entries in ascending key order, observed directories, observed files) of one store
+fn render_store(entries: &[(String, Vec<u8>)], obs: &StoreObs, it: &mut Interner) -> String {
+    let mut es: Vec<&(String, Vec<u8>)> = entries.iter().collect();
+    es.sort();
+    format!(
+        "([{}], [{}], [{}])",
+        es.iter().map(|(k, v)| format!("({},{})", g_path(k, it), g_bytes10(v))).collect::<Vec<_>>().join(";"),
+        obs.dirs.iter().map(|d| g_path(d, it)).collect::<Vec<_>>().join(";"),
+        obs.files.iter().map(|(k, v)| format!("({},{})", g_path(k, it), g_bytes10(v))).collect::<Vec<_>>().join(";")
+    )
+}
+
 struct Done {
+    data_obs: StoreObs,
+    images_obs: StoreObs,
     label: String,
     case: Option<Case10>,
     expected: Option<O>,
@@ -444,7 +545,17 @@ fn run_one(label: String, ufo_src: Option<&Path>, case: Option<Case10>, work: &P
         _ => unreachable!(),
     };
     let (first, diffs, _t0, _s0) = determinism(&ufo, work, runs, children);
-    let mut d = Done { label, case, expected: None, features: None, diffs, loaded: first.is_some(), converted: false };
+    let mut d = Done {
+        data_obs: observe_store(&work.join("out_a").join("data")),
+        images_obs: observe_store(&work.join("out_a").join("images")),
+        label,
+        case,
+        expected: None,
+        features: None,
+        diffs,
+        loaded: first.is_some(),
+        converted: false,
+    };
     if let Some(f) = &first {
         d.features = Some(f.features.clone());
         if d.case.is_none() {
@@ -575,7 +686,14 @@ pub fn main(a: &Args) {
                     other => other.clone(),
                 };
                 e3.render(&mut cases, &mut it);
-                let _ = write!(cases, ";EI {}]))\n", it.name(ft));
+                let _ = write!(cases, ";EI {}]", it.name(ft));
+                // the two store-writing loops: entries as written into the UFO (generated cases only)
+                let generated = d.label.starts_with("generated");
+                let no: Vec<(String, Vec<u8>)> = vec![];
+                let noobs = StoreObs::default();
+                let ds = render_store(if generated { &c.feat.data } else { &no }, if generated { &d.data_obs } else { &noobs }, &mut it);
+                let is = render_store(if generated { &c.feat.images } else { &no }, if generated { &d.images_obs } else { &noobs }, &mut it);
+                let _ = write!(cases, ", {}, {}))\n", ds, is);
             }
             for x in &d.diffs {
                 fails.push(serde_json::json!({"index": idx, "ufo": d.label, "what": x,
